@@ -339,6 +339,15 @@ theorem att_deneb_window_differs :
     ∃ i, WFAtt i ∧ (validateAttestation i).verdict = .ACCEPT ∧ allHold (Spec.attConds .deneb i) = false :=
   ⟨{ attOk with minSlot := 46, maxSlot := 46 }, ⟨by decide, by decide, by decide, by decide⟩, by decide, by decide⟩
 
+/-- … and on a `SLOTS_PER_EPOCH = 32` network the deneb window is the wider one: an honest attestation of the
+previous epoch that is 40 slots old satisfies every deneb condition, the code IGNOREs it (replayed by mode `c12`
+on configuration `m`). -/
+theorem att_deneb_window_drops_honest :
+    ∃ i, WFAtt i ∧ (validateAttestation i).verdict = .IGNORE ∧ allHold (Spec.attConds .deneb i) = true :=
+  ⟨{ attOk with spe := 32, slot := 64, targetEpoch := 2, index := 0, cps := 1, subnet := 0, bitLen := 2,
+                setBits := [1], committee := [7, 9], blockSlot := 63, finEpoch := 0, minSlot := 104, maxSlot := 104 },
+    ⟨by decide, by decide, by decide, by decide⟩, by decide, by decide⟩
+
 /-! ### beacon_aggregate_and_proof -/
 
 theorem selCheck_cases (i : AggIn) :
